@@ -20,8 +20,8 @@ TRUSTED = [
     "proved for the model: every table entry vs the calendar; masks = dates for every year; start/until/count/whole seconds and strict "
     "monotonicity for ALL rules and all seven frequencies; period day sets and advance of the calendar frequencies; the BY filter in calendar "
     "terms; iter = Spec.occ for DAILY/WEEKLY/MONTHLY/YEARLY with BYMONTH/BYMONTHDAY/BYYEARDAY/plain BYDAY/BYHOUR/BYMINUTE/BYSECOND, BYSETPOS "
-    "(WEEKLY only with the start on the week start), MONTHLY nth weekdays, defaults, COUNT, UNTIL; every yielded value a valid datetime.  NOT proved (covered by correspondence + oracle only): exactness for HOURLY/MINUTELY/SECONDLY, "
-    "BYWEEKNO, YEARLY nth BYDAY, BYEASTER",
+    "(WEEKLY only with the start on the week start), MONTHLY / YEARLY nth weekdays, defaults, COUNT, UNTIL; every yielded value a valid datetime.  NOT proved (covered by correspondence + oracle only): exactness for HOURLY/MINUTELY/SECONDLY, "
+    "BYWEEKNO, YEARLY nth BYDAY inside BYMONTH, BYEASTER",
 ]
 ASSUMPTIONS = [
     "aware starts: the model carries tzinfo as an opaque tag; `until` is compared in the frame of dtstart.tzinfo "
